@@ -180,8 +180,29 @@ class Exec:
                 cwd = "/"
             elif op.get("cwd") and os.path.isdir(os.path.join(repo, op["cwd"])):
                 cwd = os.path.join(repo, op["cwd"])
-            r = w.git(cwd, *[a.replace("{ROOT}", w.root).replace("{REPO}", repo) for a in op["argv"]], env=env,
-                      stdin=(op.get("stdin") or "").encode() or None, mode=op.get("mode"))
+            held = None
+            if op.get("db_busy"):
+                # fault: git-ai's own sqlite database is write-locked by another process for the whole command (every
+                # insert into it fails with SQLITE_BUSY once the busy timeout has passed)
+                dbp = os.path.join(w.home, ".git-ai", "internal", "db")
+                if os.path.isfile(dbp):
+                    import sqlite3
+                    try:
+                        held = sqlite3.connect(dbp, isolation_level=None, timeout=1)
+                        held.execute("BEGIN IMMEDIATE")
+                        self.fault("db.busy")
+                    except sqlite3.Error:
+                        held = None
+            try:
+                r = w.git(cwd, *[a.replace("{ROOT}", w.root).replace("{REPO}", repo) for a in op["argv"]], env=env,
+                          stdin=(op.get("stdin") or "").encode() or None, mode=op.get("mode"))
+            finally:
+                if held is not None:
+                    try:
+                        held.execute("ROLLBACK")
+                        held.close()
+                    except Exception:
+                        pass
             res.update(code=r.code, out=r.out, err=r.err, hang=r.hang)
         elif kind == "raw":
             r = w.raw_git(repo, *op["argv"], env=env)
